@@ -776,7 +776,7 @@ func RunC18(t *kernel.Tape, o Opts) *Result {
 	s := kernel.NewSched(t, cfg)
 	service.s = s
 	api := resolve.NewAPIClient(service)
-	rec := &c18Recorder{inner: api, s: s, perTask: make([][]c18Call, ntasks), ncalls: make([]int, ntasks), maxCall: 4000}
+	rec := &c18Recorder{inner: api, s: s, perTask: make([][]c18Call, kernel.MaxTasks), ncalls: make([]int, kernel.MaxTasks), maxCall: 4000}
 	resolver := npm.NewResolver(rec)
 	fns := make([]func(*kernel.Task), ntasks)
 	for i := range programs {
@@ -863,6 +863,12 @@ func RunC18(t *kernel.Tape, o Opts) *Result {
 	}
 
 	// Oracle: no panic; Resolve differential against the model universe.
+	for i := len(programs); i < s.N(); i++ {
+		if pv := s.TaskPanic(i); pv != nil {
+			violate(res, "panic", "panic:spawned-goroutine", 0, "a goroutine started by the code under test panicked: %v", pv)
+		}
+	}
+	probe(res, "goroutines_of_code_under_test", s.Spawned)
 	for i, ops := range programs {
 		if pv := s.TaskPanic(i); pv != nil {
 			violate(res, "panic", "panic:harness-task", 0, "task %d panicked outside an operation: %v", i, pv)
